@@ -1,4 +1,5 @@
 import Op2Proofs.Map.Read
+import Op2Proofs.Map.Saved
 import Op2Model.Gen.Layout
 import Op2Model.Gen.Constants
 import Op2Model.Gen.Formulas
@@ -168,6 +169,40 @@ theorem C07_saved_game_same_map (s b : Bytes) (m1 m2 : Map) (n1 n2 : Nat)
     exact (Except.ok.inj this).symm
   subst e
   exact ⟨rfl, rfl, rfl, rfl, rfl, rfl, rfl, rfl, rfl⟩
+
+/-! ## saved games exist: every well-formed map portion has them, and both readers return it -/
+
+/-- saved games exist for every well-formed map portion and read to exactly that portion: a file made of any 0x1E025 bytes,
+    the map's beginning, the tag, a unit block, the tag, anything; and the map file with the same beginning reads to the
+    same fields (plus its groups) -/
+theorem C07_saved_game_reads (m : Map) (wf : Spec.WF m) (k : Nat) (hk : k < 32) (hw : m.width = 2 ^ k)
+    (pad u rest : Bytes) (hpad : pad.length = savedGameSkip) (hu : u.length = unitsArrayBytes) :
+    readSavedGame (pad ++ beginBytes m k ++ encU32 m.versionTag ++ emptyUnits u ++ encU32 m.versionTag ++ rest) =
+      .ok { m with groups := [] } (savedGameSkip + (beginBytes m k).length + 4 + (emptyUnits u).length + 4) ∧
+    read (beginBytes m k ++ encU32 m.versionTag ++ encU32 m.versionTag ++ encGroups m.groups ++ rest) =
+      .ok m ((beginBytes m k).length + 4 + 4 + (encGroups m.groups).length) := by
+  constructor
+  · have hr : Reads pSavedGame (pad ++ beginBytes m k ++ encU32 m.versionTag ++ emptyUnits u ++ encU32 m.versionTag)
+        (.ok { m with groups := [] }) := by
+      intro r
+      unfold pSavedGame
+      simp only [List.append_assoc]
+      rw [bind_reads (reads_take' pad savedGameSkip hpad), bind_reads (reads_beginBytes m k hk hw wf)]
+      simp only []
+      rw [bind_reads (reads_pVersionTag _ wf.tagMin wf.tagLt), bind_reads (reads_pUnits_empty u hu),
+        bind_reads (reads_pVersionTag _ wf.tagMin wf.tagLt)]
+      rfl
+    have := outcome_of_ok (hr rest)
+    unfold readSavedGame; rw [this]
+    simp [List.length_append, hpad, encU32_length]
+    omega
+  · have e : beginBytes m k ++ encU32 m.versionTag ++ encU32 m.versionTag ++ encGroups m.groups = layout m k := by
+      simp [layout, beginBytes, List.append_assoc]
+    rw [e]
+    have := outcome_of_ok (reads_layout m k hk hw wf rest)
+    unfold Map.read; rw [this, ← e]
+    simp [List.length_append, encU32_length]
+    omega
 
 /-! ## non-vacuity: concrete files on which the hypotheses hold -/
 
